@@ -1,19 +1,21 @@
 INIT Init
 NEXT Next
 CONSTANTS
-  Part = "item"
+  Part = "shared"
   MaxAlts = 1
   MaxSamples = 1
   MaxCalls = 1
   Correlated = FALSE
-  AnsOpts = {"a0", "a12", "a1", "a1f"}
-  CmpReturns = {"T", "F", "P", "d13"}
-  LeafAns = {}
-  LeafCmp = {}
+  AnsOpts = {}
+  CmpReturns = {}
+  LeafAns = {"a1"}
+  LeafCmp = {"T", "F"}
   TableGrades = {}
   ListAns = {}
   MaxItems = 1
-  Layouts = {}
+  Layouts = {"flat2"}
   TableOnly = {"g1212"}
-  OkRecomputed = FALSE
+  AttOpts = {"none"}
+  OkRecomputed = TRUE
+  ParentForcesChildDebug = TRUE
 INVARIANT InvReturnedWellFormed
